@@ -7,9 +7,10 @@ from vlib import REPO
 PKGS = ["./internal/smtpconn/pool/", "./internal/target/remote/"]
 POOL = "internal/smtpconn/pool/pool.go"
 REMOTE = "internal/target/remote"
-FN = {"CleanUp": "c", "Get": "g", "Return": "r", "Close": "s"}
-# never run by a scheduled goroutine: the constructor and the pool's own ticker goroutine
-UNSCHEDULED = {"New", "cleanUpTick"}
+FN = {"CleanUp": "c", "Get": "g", "Return": "r", "Close": "s", "cleanUpTick": "t"}
+# never run by a scheduled goroutine: the constructor (the goroutine it starts — the pool's own ticker goroutine —
+# becomes the scheduler's daemon task: vcoop.GoDaemon)
+UNSCHEDULED = {"New"}
 # ordered synchronisation skeleton the model (Model/Pool.lean) was written for: per function, the kinds of
 # the points in source order (lock acquisition, map-range iteration, close, drain receive, select, go, stop send)
 EXPECT = {
@@ -17,6 +18,8 @@ EXPECT = {
     "g": ["lock", "close", "drain", "go", "sel", "go", "go"],
     "r": ["lock", "iter", "close", "drain", "sel", "go"],
     "s": ["stop", "lock", "iter", "close", "drain"],
+    "t": ["wait"],
+    "New": ["daemon"],
 }
 
 
@@ -31,6 +34,7 @@ def rewrite(src):
     lines = src.split("\n")
     closers = {}  # line index -> replacement lines (the end of a construct that was opened by a rewritten line)
     nlabel = [0]
+    fname = [None]
 
     def hit(kind):
         counts.setdefault(fn, []).append(kind)
@@ -51,13 +55,23 @@ def rewrite(src):
             # functions the model does not know (helpers a changed tree may have) get the same yields under the
             # label "x": the lockstep comparison fails on them, the scheduler and the monitor keep working
             fn = None if m.group(1) in UNSCHEDULED else FN.get(m.group(1), "x")
+            fname[0] = m.group(1)
         elif re.match(r"^func ", line):
             fn = None
+            fname[0] = None
         line = line.replace("time.Now()", "vcoop.Now()")
         ind = re.match(r"^(\s*)", line).group(1)
         if fn is None:
+            m = re.match(r"^\s*go ([\w.]+\(.*\))\s*$", line)
+            if m and fname[0] == "New":
+                # the background goroutine the constructor starts (cleanUpTick): the scheduler's daemon task
+                counts.setdefault("New", []).append("daemon")
+                out.append('%svcoop.GoDaemon(func() { %s })' % (ind, m.group(1)))
+                continue
             out.append(line)
             continue
+        # the ticker of the pool's own goroutine fires when the schedule says so
+        line = line.replace("time.NewTicker(", "vcoop.NewTicker(")
         m = re.match(r"^\s*(\w+)\.keysLock\.Lock\(\)\s*$", line)
         if m:
             hit("lock")
@@ -98,10 +112,19 @@ def rewrite(src):
                 hit("wait")
                 nlabel[0] += 1
                 lab = "vcoopWait%d" % nlabel[0]
+                chans = []
+                for j in range(idx + 1, end):
+                    mc = re.match(r"^%scase (?:\w+(?:, \w+)? :?= )?<-(.+):\s*$" % re.escape(ind), lines[j])
+                    if mc:
+                        chans.append(mc.group(1))
+                # outside the scheduler (other tests; a task released at the end of a case) the select really waits
                 out.append("%s%s:" % (ind, lab))
-                out.append('%svcoop.Point("%s.wait", %s)' % (ind, fn, m.group(1) if m else "nil"))
+                out.append("%sif !vcoop.Scheduled() {" % ind)
+                out.extend(l.replace("time.Now()", "vcoop.Now()") for l in lines[idx:end + 1])
+                out.append("%s} else {" % ind)
+                out.append('%svcoop.Wait("%s.wait"%s)' % (ind, fn, "".join(", " + c for c in chans)))
                 out.append(line)
-                closers[end] = [ind + "default:", ind + "\tvcoop.Blocked()", ind + "\tgoto " + lab, ind + "}"]
+                closers[end] = [ind + "default:", ind + "\tvcoop.Blocked()", ind + "\tgoto " + lab, ind + "}", ind + "}"]
                 continue
             if m:
                 hit("sel")
@@ -114,8 +137,9 @@ def rewrite(src):
             hit("wait")
             nlabel[0] += 1
             lab = "vcoopWait%d" % nlabel[0]
-            out += ["%s%s:" % (ind, lab), '%svcoop.Point("%s.wait", %s)' % (ind, fn, m.group(1)), ind + "select {",
-                    "%scase <-%s:" % (ind, m.group(1)), ind + "default:", ind + "\tvcoop.Blocked()", ind + "\tgoto " + lab, ind + "}"]
+            out += ["%s%s:" % (ind, lab), ind + "if !vcoop.Scheduled() {", line, ind + "} else {",
+                    '%svcoop.Wait("%s.wait", %s)' % (ind, fn, m.group(1)), ind + "select {",
+                    "%scase <-%s:" % (ind, m.group(1)), ind + "default:", ind + "\tvcoop.Blocked()", ind + "\tgoto " + lab, ind + "}", ind + "}"]
             continue
         m = re.match(r"^\s*go (\w+)\.Close\(\)\s*$", line)
         if m:
@@ -136,10 +160,13 @@ def rewrite(src):
             hit("gofn")
             out.append('%svcoop.Go("", func() { %s })' % (ind, m.group(1)))
             continue
-        if re.match(r"^\s*p\.cleanupStop <- struct\{\}\{\}\s*$", line):
-            hit("stop")
-            out.append('%svcoop.Point("%s.stop", nil)' % (ind, fn))
-            out.append(line)
+        m = re.match(r"^\s*([\w.]+) <- (.+?)\s*$", line)
+        if m:
+            # a send statement: the stop signal for the ticker goroutine (unbuffered: completes only while that goroutine
+            # is parked in its select) — or whatever a changed tree sends; vcoop.Send is the scheduler's rendezvous
+            kind = "stop" if m.group(1).endswith("cleanupStop") else "send"
+            hit(kind)
+            out.append('%svcoop.Send("%s.%s", %s, %s)' % (ind, fn, kind, m.group(1), m.group(2)))
             continue
         out.append(line)
     res = "\n".join(out)
@@ -151,6 +178,8 @@ def reclock(src):
     """Route the clock of a file of the remote target (every file that touches mxConn.lastUseAt) to vcoop: the
     harness of the real connection type moves the time by hand.  Purely textual; nothing else is changed."""
     new = src.replace("time.Now()", "vcoop.Now()").replace("time.Since(", "vcoop.Since(")
+    # the monitor counts the calls of Close() per connection object (closed exactly once): a call-back at the entry
+    new = re.sub(r"(?m)^(func \((\w+) \*mxConn\) Close\(\) error \{)$", r'\1\n\tvcoop.Event("mxclose", \2)', new)
     if new == src:
         return None
     new = re.sub(r"(?m)^(package \w+[^\n]*\n)", r'\1import "github.com/foxcpp/maddy/internal/verifshim/vcoop"\n', new, count=1)
@@ -223,6 +252,10 @@ def run(c):
         "cancellation: one context per worker / delivery, done when the schedule says so (Who.cancel; Canceled, or DeadlineExceeded for contexts with a deadline) and never live again; "
         "pool.go passes the context to cfg.New only, and cfg.New (a dial) fails under a context that is done — the harness's cfg.New and the real dialer of the remote target do",
     ]
+    c.assumptions += [
+        "the pool's ticker goroutine: a tick of its time.Ticker is taken only while the goroutine is parked in the select of cleanUpTick (Op.sweep; a tick that arrives while it is inside CleanUp is dropped — time.Ticker buffers one, "
+        "which is the same as firing when it is back); the send on the unbuffered cleanupStop completes only while that goroutine is parked in the select (St.tkTask = none)",
+    ]
     c.trusted_base += [
         "checks/c19.py rewriter (textual insertion of scheduler yields into pool.go at check time) and harness/internal/verifshim/vcoop (cooperative scheduler)",
         "checks/c19.py reclock (time.Now() of pool.go and of the remote-target files that stamp mxConn.lastUseAt is vcoop's manual clock in the overlay), the scripted go-smtp servers of the remote-target harness",
@@ -238,6 +271,10 @@ def run(c):
         "(goroutines and waiting selects of a changed pool.go are scheduled too); "
         "plus sequential histories of the REAL remote target (real remoteDelivery / mxConn / smtpconn over loopback SMTP servers for 3 domains, real pool, manual clock): deliveries opened and ended in any order, "
         "ticks around the idle lifetime (late returns), server-side connection drops, sweeps, deliveries whose context is cancelled / times out while the next hop withholds its answer to the RSET probe of pool.Get (op x<k>), MaxKeys 1/2/5000, conn_max_idle_count 0-3, conn_max_idle_time 1-150 s — compared with the model run sequentially (`C19 mx` lines); "
+        "the pool's own ticker goroutine (cleanUpTick) is a task of the schedule in a third of the random cases and in the tick-shutdown scenarios (last program k.k…: its ticker fires when the schedule steps it while it is "
+        "parked in its select): the tick is a schedulable event at every point of Close / Get / Return, also while a connection's Close() is in progress; the stop signal on the unbuffered cleanupStop is a rendezvous "
+        "that completes only while the ticker goroutine is blocked in its select; liveness: every case is run until every goroutine has finished, a state in which no goroutine can move is C19/shutdown-blocked (somebody is inside Close) or C19/deadlock; "
+        "mx: more overlapping deliveries to one destination than conn_max_idle_count (style overflow), Close() calls counted per mxConn object (C19/closed-twice), panics of the pool's own goroutines (C19/panic); "
         "distinct = distinct (case, schedule) lines",
         explanation="theorems over all schedules, any number of workers/keys; model tied to pool.go by step-level lockstep runs of the real code, and to the real connection type by sequential runs of the real remote target; "
         "independent Go monitors on connection objects (own records of owner, key and time of the last Return, last use; what the scripted servers saw)",
